@@ -56,7 +56,7 @@ def _exec_small(args):
     # 1. bulk: the whole grid in one float64 array through the constructor (ascending -> monotone clause)
     out.append(x_store.observe(fx, np, fmt, modes, vals, 'ndarray-f64', 'ctor', props, True, {'sorted': True}))
     # 2. every grid point as a scalar Python float, route rotating over the four scalar routes
-    sroutes = ['ctor', 'call', 'set_val', 'setitem', 'setitem-2d', 'call-reset', 'recfg', 'setitem-reuse', 'resize-signed', 'resize-fmt', 'like-signed', 'odd-config', 'config-obj']
+    sroutes = ['ctor', 'call', 'set_val', 'setitem', 'setitem-2d', 'call-reset', 'recfg', 'setitem-reuse', 'resize-signed', 'resize-fmt', 'like-signed', 'odd-config', 'config-obj', 'then-reject', 'reject-then', 'like-flagged']
     for j, route in enumerate(sroutes):
         sub = vals[(rot + j) % len(sroutes)::len(sroutes)]
         if sub:
@@ -86,7 +86,8 @@ def _exec_small(args):
         pool = bvals
     for c, r in scal:
         out.append(x_store.observe(fx, np, fmt, modes, pool if tier == 'thorough' and r == 'ctor' else bvals, c, r, props, False))
-    aroutes = ['ctor', 'call', 'set_val', 'setitem-slice', 'call-reset', 'recfg', 'setitem-reuse', 'resize-signed', 'resize-fmt', 'like-signed', 'odd-config', 'config-obj']
+    aroutes = ['ctor', 'call', 'set_val', 'setitem-slice', 'call-reset', 'recfg', 'setitem-reuse', 'resize-signed', 'resize-fmt', 'like-signed', 'odd-config', 'config-obj',
+               'then-reject', 'reject-then', 'like-flagged']
     acar = [c for c in x_store.ARRAY_CARRIERS if c != 'ndarray-f64']
     bv = bvals if len(bvals) % 2 == 0 else bvals[:-1]
     for i, c in enumerate(acar):
@@ -170,7 +171,7 @@ def _exec_wide(args):
     rng = random.Random(seed)
     props = PROPS_FOR[pid]
     out = []
-    sroutes = ['ctor', 'call', 'set_val', 'setitem', 'setitem-2d', 'call-reset', 'recfg', 'setitem-reuse', 'resize-signed', 'resize-fmt', 'like-signed', 'odd-config', 'config-obj']
+    sroutes = ['ctor', 'call', 'set_val', 'setitem', 'setitem-2d', 'call-reset', 'recfg', 'setitem-reuse', 'resize-signed', 'resize-fmt', 'like-signed', 'odd-config', 'config-obj', 'then-reject', 'reject-then', 'like-flagged']
     for _ in range(count):
         s = rng.random() < 0.5
         w = rng.choice([1, 2, 3, 5, 7, 8, 9, 10, 15, 16, 17, 24, 31, 32, 33, 40, 47, 48, 51, 52, rng.randint(1, 52), rng.randint(1, 10)])
@@ -189,7 +190,7 @@ def _exec_wide(args):
                             'list-decstr', 'nested-tuple', 'ndarray-2d', 'list-np.int8', 'list-np.int16', 'tuple-np.int32', 'list-np.uint8',
                             'list-np.float16', 'tuple-np.float32', 'list-np.uint16', 'list-mixed-np', 'ndarray-2d-F', 'ndarray-2d-T', 'ndarray-3d',
                             'ndarray-3d-swap', 'ndarray-i64-2d-F', 'ndarray-strided'])
-            ar = rng.choice(['ctor', 'call', 'set_val', 'setitem-slice', 'call-reset', 'recfg', 'setitem-reuse', 'resize-signed', 'resize-fmt', 'like-signed', 'odd-config', 'config-obj'] if not (ac.startswith('nested') or ac.startswith(('ndarray-2d', 'ndarray-3d', 'ndarray-i64-2d'))) else ['ctor', 'call', 'set_val', 'recfg', 'resize-signed', 'like-signed', 'odd-config', 'config-obj'])
+            ar = rng.choice(['ctor', 'call', 'set_val', 'setitem-slice', 'call-reset', 'recfg', 'setitem-reuse', 'resize-signed', 'resize-fmt', 'like-signed', 'odd-config', 'config-obj', 'then-reject', 'reject-then', 'like-flagged'] if not (ac.startswith('nested') or ac.startswith(('ndarray-2d', 'ndarray-3d', 'ndarray-i64-2d'))) else ['ctor', 'call', 'set_val', 'recfg', 'resize-signed', 'like-signed', 'odd-config', 'config-obj', 'then-reject', 'reject-then', 'like-flagged'])
             vv = sorted(vals) if len(vals) % 2 == 0 else sorted(vals)[:-1]
             if vv:
                 out.append(x_store.observe(fx, np, (s, w, f), (r, o), vv, ac, ar, props, True, {'sorted': True}))
